@@ -631,10 +631,11 @@ UNITS["codec.roundtrip_G2"] = Unit("codec.roundtrip_G2", u_roundtrip_g2, [f"{PC}
 
 def u_codec_closed(ctx):
     from contracts.closed import eval_facts, lean_cite
-    eval_facts(ctx, ["bls.no-y0-points", "bls.q-shape", "bls.q-constant"])
+    eval_facts(ctx, ["bls.no-y0-points", "bls.q-shape", "bls.q-constant", "codec.eighth-roots"])
     lean_cite(ctx, [("Fields.lean", "sqrt34_of_isSquare", "q = 3 mod 4: a square a has root a^((q+1)/4)"),
                     ("Fields.lean", "sq_eq_sq_cases", "c^2 = y^2 in a field implies c = +-y"),
                     ("Roots.lean", "fourth_root_cases", "eighth-roots square-root method, case analysis"),
+                    ("Roots.lean", "check_is_fourth_root", "candidate^2 / value is a fourth root of unity"),
                     ("Roots.lean", "sqrt_from_candidate", "candidate / root-of-unity is a square root")])
 
 
